@@ -2,6 +2,7 @@ import XgcmModel.Proofs.SigEquiv
 import XgcmModel.Proofs.Signature
 import XgcmModel.Model.Grid
 import XgcmModel.Model.Metrics
+import XgcmModel.Proofs.Rename
 /-
   C13 — Axis, dimension and variable names are opaque labels.
 
@@ -171,5 +172,47 @@ theorem sameSet_rename (ρ : String → String) (a b : List String) (hinj : InjO
 /-- non-vacuity: an axis called `t` (a letter of every position word) -/
 example : Sig.equivalent ⟨[[("t".toList, .center)]], [[("t".toList, .left)]]⟩
     ⟨[[("X".toList, .center)]], [[("X".toList, .left)]]⟩ = true := by decide
+
+/-! ### The dispatcher model as a whole -/
+
+open Xgcm.Rename in
+/-- **Grid.diff / interp / min / max (model) commute with renaming.**  For every grid, array, operation,
+    list of axes, `to` / `boundary` / `fill_value` spelling (absent, scalar or per-axis mapping) and
+    every injective renaming `ρa` of axis names and `ρd` of dimension names: running the dispatcher
+    model on the renamed grid, renamed array and renamed keyword mappings is accepted exactly when the
+    original is, and then returns the original result with its dimensions renamed — same shape, same
+    values at every index.  The model is the one C01/C02/C20 tie to the code (ufunc table regenerated
+    from /repo); names are arbitrary strings: one-letter names, position words, prefixes of each
+    other are not special. -/
+theorem dispatch_rename {α : Type} {ρa ρd : String → String} (ha : Inj ρa) (hd : Inj ρd)
+    (o : Ops α) (table : List UfuncEntry) (g : GridM α) (fn : String) (arr : NDArr α)
+    (axes : List String) (to boundary : KW String) (fill : KW α) :
+    dispatch o table (renGrid ρa ρd g) fn (renArr ρd arr) (axes.map ρa) (renKW ρa to)
+        (renKW ρa boundary) (renKW ρa fill)
+      = (dispatch o table g fn arr axes to boundary fill).map (renArr ρd) :=
+  dispatch_ren ha hd o table g fn arr axes to boundary fill
+
+open Xgcm.Rename in
+/-- one step (one axis) of the same, also used by cumsum-free paths of C02/C20 -/
+theorem stepAxis_rename {α : Type} {ρa ρd : String → String} (ha : Inj ρa) (hd : Inj ρd)
+    (o : Ops α) (table : List UfuncEntry) (g : GridM α) (fn : String) (axname : String) (f t : Pos)
+    (boundary : KW String) (fill : KW α) (arr : NDArr α) :
+    stepAxis o table (renGrid ρa ρd g) fn (ρa axname) f t (renKW ρa boundary) (renKW ρa fill) (renArr ρd arr)
+      = (stepAxis o table g fn axname f t boundary fill arr).map (renArr ρd) :=
+  stepAxis_ren ha hd o table g fn axname f t boundary fill arr
+
+/-- a renaming that exchanges the axis name `X` with the position word `center` and the dimension
+    `x_c` with the single letter `t` -/
+def swapNames (a b : String) (s : String) : String := if s = a then b else if s = b then a else s
+
+/-- non-vacuity of the hypothesis: swaps are injective -/
+theorem swap_inj (a b : String) : Xgcm.Rename.Inj (swapNames a b) := by
+  intro x y h
+  unfold swapNames at h
+  by_cases hxa : x = a <;> by_cases hxb : x = b <;> by_cases hya : y = a <;> by_cases hyb : y = b <;>
+    simp_all
+
+example : Xgcm.Rename.Inj (swapNames "X" "center") ∧ Xgcm.Rename.Inj (swapNames "x_c" "t") :=
+  ⟨swap_inj _ _, swap_inj _ _⟩
 
 end Xgcm.C13
